@@ -255,6 +255,7 @@ func isIdentByte(b byte) bool {
 // returns the bytes contributed by each field unit (key: Go field name, or
 // "ext:E_x" for an extension, "" for statements before the first field).
 func runUnits(it *symexec.Interp, info *types.Info, recv types.Object, body []ast.Stmt) map[string]*sym.E {
+	it.AliasAtom(recv, "m")
 	units := map[string]*sym.E{}
 	cur := ""
 	total := sym.Const(0)
